@@ -82,8 +82,10 @@ def oracle_repr(ck, tier, deep):
         if order == 0:
             odd = False
         terms = 1 + (order if odd else order // 2)
-        cn = rng.normal(size=(terms, 6))
+        cn = rng.normal(size=(terms, 6 if it % 2 == 0 else 11))
         cn[0] += 3.0
+        if it % 2:                 # radii without data (masked rings, the rows beyond a corner): all coefficients exactly zero there,
+            cn[:, rng.choice(cn.shape[1], size=int(rng.integers(1, 4)), replace=False)] = 0.0      # next to radii with data
         R = results(cn, order, odd)
         th = rng.uniform(0, np.pi, size=9)
         ck.count(("S.repr", order, odd), suite="S.representations")
@@ -298,6 +300,36 @@ def oracle_invariance(ck, tier, deep):
             ck.violation(dict(site="Distributions", clause="origin-string"), dict(origin=name), f"origin='{name}' differs from the tuple {fn(h, w)}")
 
 
+def oracle_reuse(ck, tier):
+    """a Distributions object (no weights) is the description of an analysis, not of one frame: used for an image of another shape it returns —
+    in every representation — what a freshly made object with the same arguments returns (origins named by a string or counted from the far
+    edge are resolved for the frame at hand)"""
+    from abel.tools.vmi import Distributions
+    rng = np.random.default_rng(seed() + 1551)
+    origins = ["cc", "center", "ll", "ur", "lower right", "top center", (-3, -4), (-1, 5), (4, 6)]
+    for it in range(9 if tier == "quick" else 60):
+        origin = origins[it % len(origins)]
+        rmax = ["MIN", "all", "MAX", "hor"][it % 4]
+        order = int(rng.choice([0, 2, 4]))
+        shapes = [(int(rng.integers(11, 30)), int(rng.integers(11, 30))) for _ in range(3)]
+        D = Distributions(origin, rmax, order)
+        for k, shp in enumerate(shapes):
+            im = rng.random(shp) + 0.1
+            ck.count(("S.reuse", str(origin), rmax, k), suite="S.invariance")
+            rep = dict(origin=str(origin), rmax=rmax, order=order, shapes=[list(s_) for s_ in shapes[:k + 1]])
+            try:
+                got, want = quiet(D, im), quiet(Distributions(origin, rmax, order), im)
+            except Exception as e:
+                ck.violation(dict(site="Distributions", clause="exception"), rep, f"{type(e).__name__}: {e}")
+                break
+            bad = [nm for nm in ("rcos", "rharmonics", "rIbeta") if np.shape(getattr(got, nm)()) != np.shape(getattr(want, nm)())
+                   or not np.array_equal(getattr(got, nm)(), getattr(want, nm)(), equal_nan=True)]
+            if bad:
+                ck.violation(dict(site="Distributions", clause="object-reuse"), rep,
+                             f"Distributions({origin!r}, {rmax!r}, {order}) used for image {k + 1} of shapes {shapes[:k + 1]}: {bad} differ from a fresh object's")
+                break
+
+
 def run(tier):
     ck = Check("C15", tier)
     deep = tier == "thorough"
@@ -322,6 +354,7 @@ def run(tier):
         ck.broken.append(dict(kind="proof", module="pyabel_drv", why="driver build failed", log=log[-1500:]))
     oracle_repr(ck, tier, deep or bool(ck.broken))
     oracle_invariance(ck, tier, deep or bool(ck.broken))
+    oracle_reuse(ck, tier)
     return ck.finish()
 
 
